@@ -21,6 +21,7 @@ func (e *Engine) checkImmutables(fnIndex map[string]*ssa.Function) {
 	sort.Strings(keys)
 	for _, k := range keys {
 		ts := e.db.Types[k]
+		e.checkPrivate(ts, fnIndex)
 		for _, g := range ts.Guards {
 			if g.Lock != "immutable" && g.Lock != "stable" {
 				continue
@@ -120,4 +121,79 @@ func immutableViolations(fn *ssa.Function, named *types.Named, idx int) []string
 		}
 	}
 	return bad
+}
+
+// checkPrivate: `private f`: the field (and the contents of a map stored in it) is written
+// only by functions of the declaring package (syntactic check over the loaded program); such
+// components are not havoced by calls into other packages or through interfaces (A-PRIV).
+func (e *Engine) checkPrivate(ts *TypeSpec, fnIndex map[string]*ssa.Function) {
+	for _, f := range ts.Private {
+		var named *types.Named
+		for _, p := range e.prog.AllPackages() {
+			if p.Pkg.Path() == ts.Pkg {
+				if obj := p.Pkg.Scope().Lookup(ts.Name); obj != nil {
+					named, _ = obj.Type().(*types.Named)
+				}
+			}
+		}
+		if named == nil {
+			continue
+		}
+		st, ok := named.Underlying().(*types.Struct)
+		if !ok {
+			continue
+		}
+		idx := -1
+		for i := 0; i < st.NumFields(); i++ {
+			if st.Field(i).Name() == f {
+				idx = i
+			}
+		}
+		name := fmt.Sprintf("%s/%s.%s/private#%s", e.prop, shortPkg(ts.Pkg), ts.Name, f)
+		ob := &Obligation{Name: name, Func: shortPkg(ts.Pkg) + "." + ts.Name, Kind: "immutable", Desc: "field " + f + " (and its map contents) is written only by package " + shortPkg(ts.Pkg)}
+		if idx < 0 {
+			ob.VCs = []*VC{{Goal: False, From: "syntactic"}}
+		} else {
+			hn, ft := heapKeyStruct(named, []int{idx})
+			for _, l := range layout(ft) {
+				stableHeapNames[hn+l.Suffix] = true
+				e.immutableHeap[hn+l.Suffix] = true
+			}
+			var bad []string
+			if mt, isMap := ft.Underlying().(*types.Map); isMap {
+				if _, ok := mapSorts(mt); ok {
+					mn := mapHeapName(mt)
+					stableHeapNames[mn+"#dom"] = true
+					for _, l := range layout(mt.Elem()) {
+						stableHeapNames[mn+"#val"+l.Suffix] = true
+					}
+					// no other package may update a map of this type
+					for key, fn := range fnIndex {
+						if strings.HasPrefix(key, ts.Pkg+".") && !strings.Contains(strings.TrimPrefix(key, ts.Pkg+"."), "/") {
+							continue
+						}
+						for _, b := range fn.Blocks {
+							for _, in := range b.Instrs {
+								if mu, ok := in.(*ssa.MapUpdate); ok && types.Identical(mu.Map.Type().Underlying(), mt) {
+									bad = append(bad, e.posStr(mu.Pos()))
+								}
+							}
+						}
+					}
+				}
+			}
+			for key, fn := range fnIndex {
+				if strings.HasPrefix(key, ts.Pkg+".") && !strings.Contains(strings.TrimPrefix(key, ts.Pkg+"."), "/") {
+					continue
+				}
+				bad = append(bad, immutableViolations(fn, named, idx)...)
+			}
+			if len(bad) > 0 {
+				ob.VCs = []*VC{{Goal: False, From: "syntactic"}}
+				ob.Desc += "; violated at " + strings.Join(bad, ", ")
+			}
+		}
+		e.obls[name] = ob
+		e.order = append(e.order, name)
+	}
 }
